@@ -1,5 +1,6 @@
 import Irismod.Props.Tie_Htlc
 open Irismod.Props.Tie Irismod.Gen.PureHtlc Irismod.Sdk
+#print axioms htlc_effects_pinned
 #print axioms htlc_guards_pinned
 #print axioms htlc_all_translated
 #print axioms htlc_translated_pinned
